@@ -884,6 +884,11 @@ class BaseOrchestrator(ABC):
             DistributedInvocation.from_parent(call, parent_invocation) for call in calls
         ]
         self.register_new_invocations(invocations)
+        if calls[0].task.conf.running_concurrency != ConcurrencyControlType.DISABLED:
+            # Running concurrency control finds same-key invocations through the argument
+            # index: the batch path must index exactly like _route_new_call_invocation does.
+            for invocation in invocations:
+                self.index_arguments_for_concurrency_control(invocation)
         return invocations
 
     @abstractmethod
